@@ -6,7 +6,7 @@ from . import common
 from .common import Report, Scratch, MachineryError
 
 RAISED = [-1, 0, 0]
-C14_CLAUSES = {'age_past_last_column_does_not_use_last_column', 'factor_not_finite_positive', 'open_best_not_finite_positive', 'grade_not_finite_positive',
+C14_CLAUSES = {'open_best_differs_from_table', 'factor_at_tabulated_age_differs_from_table', 'age_past_last_column_does_not_use_last_column', 'factor_not_finite_positive', 'open_best_not_finite_positive', 'grade_not_finite_positive',
                'grade_differs_from_standard_over_performance', 'better_performance_does_not_grade_higher',
                'open_best_at_factor_one_does_not_grade_one', 'spelling_changes_result'}
 C15_CLAUSES = {'distance_query_raised', 'distance_result_not_finite_positive', 'below_table_not_clamped_to_first_row',
@@ -74,6 +74,8 @@ def _ag_job(job):
     from athlib.utils import parse_hms
     tbl, g, ev, ages2, timed = job[:5]
     lastage = job[5] if len(job) > 5 else None
+    # the published row of this event, read from the data file by the parent (never through the grader under test)
+    trow = job[6] if len(job) > 6 else None          # {'best': number or None, 'cells': {age: factor}}
     out = []
     flast = None
     if tbl != 'athlon':
@@ -112,7 +114,10 @@ def _ag_job(job):
         elif tbl == 'athlon' and not isinstance(f, Exception):
             # the combined-events grader has no open bests of its own: only the factor clauses apply
             b = 1.0
-        out.append({'k': 'ag', 'tbl': tbl, 'g': g, 'ev': ev, 'age2': a2, 'timed': timed, 'f': L(f),
+        tb = L(float(trow['best'])) if (trow and tbl != 'athlon' and isinstance(trow.get('best'), (int, float)) and trow['best'] > 0) else list(RAISED)
+        cell = trow['cells'].get(a2 // 2) if (trow and a2 % 2 == 0) else None
+        out.append({'k': 'ag', 'tbl': tbl, 'g': g, 'ev': ev, 'age2': a2, 'timed': timed, 'f': L(f), 'tb': tb,
+                    'tf': L(float(cell)) if isinstance(cell, (int, float)) and cell > 0 else list(RAISED),
                     'b': L(b) if b is not None else list(RAISED), 'perfs': perfs, 'atbest': atbest if perfs else L(1.0),
                     'past': bool(lastage is not None and age > lastage), 'flast': flast if flast is not None else list(RAISED),
                     'n': 2 + len(perfs)})
@@ -166,15 +171,16 @@ def run14(tier):
                     a2 = a2[::2] + a2[-3:]
                 fac = row[3:]
                 lastcol = ages[-1] if (fac[-1] is not None and fac[-1] > 0) else None
+                trow = {'best': row[2], 'cells': {ages[i]: fac[i] for i in range(len(ages)) if i < len(fac) and fac[i] is not None}}
                 for i in range(0, len(a2), 40):
-                    jobs.append((tbl, g, ev, a2[i:i + 40], timed, lastcol))
+                    jobs.append((tbl, g, ev, a2[i:i + 40], timed, lastcol, trow))
                 spjobs.append((tbl, g, ev, timed, [a2[0] // 2, a2[len(a2) // 2] // 2 + 0.5 if (a2[len(a2) // 2] + 1) in a2 else a2[len(a2) // 2] // 2, a2[-1] // 2]))
     d = T['athlon']
     for g in 'mf':
         for row in d[g]:
             ev = row[0]
             a2 = list(range(70, 2 * 131 + 1, 1 if not quick else 3))
-            jobs.append(('athlon', g, ev, a2, True, d['ages'][-1]))
+            jobs.append(('athlon', g, ev, a2, True, d['ages'][-1], None))      # (the combined-events factors are bound to the published table by C01)
     with Pool(common.NCPU) as pool:
         recs = [x for part in pool.map(_ag_job, jobs, chunksize=4) for x in part]
     # spelling independence
